@@ -49,6 +49,7 @@ class Conds:
         self._edge_dom = {}
         self._lits = {}
         self._busy = set()
+        self._in = None
         # branch edges
         self.branch_edges = []
         for a in range(self.cfg.n):
@@ -172,6 +173,8 @@ class Conds:
     def switch_literals(self, a, s, depth=0):
         """edge literals, with bool temporaries (phi of constants / calls) expanded through the blocks that
         define them."""
+        if self._in is None:
+            self._solve()
         t = self.body.blocks[a]["term"]
         dty = self.body.ty(t["dty"])["s"]
         p = mir.op_place(t["discr"])
@@ -195,7 +198,7 @@ class Conds:
                     return set()
                 sets = []
                 for (bi, si, d, cv) in compat:
-                    lits = set(self.must_literals(bi, depth + 1))
+                    lits = set(self._in.get(bi, frozenset())) if self._in is not None else set()
                     if cv is None:
                         # non-constant definition: its own condition
                         if d[0] == "assign":
@@ -232,22 +235,56 @@ class Conds:
         return None
 
     def must_literals(self, block, depth=0):
-        """Literals that hold on every path from the entry to `block`."""
-        if block in self._lits:
-            return self._lits[block]
-        if depth > 10 or block in self._busy:
-            return frozenset()
-        self._busy.add(block)
-        out = set()
-        try:
-            for (a, s) in self.dominating_edges(block):
-                out |= self.switch_literals(a, s, depth)
-        finally:
-            self._busy.discard(block)
-        fs = frozenset(out)
-        if depth == 0:
-            self._lits[block] = fs
-        return fs
+        """Literals that hold on every path from the entry to `block` (forward must-analysis: the literals at a
+        block are the join over its predecessors of the predecessor's literals plus the literals of the edge;
+        variant literals on one path are joined by union)."""
+        if self._in is None:
+            self._solve()
+        v = self._in.get(block)
+        return v if v is not None else frozenset()
+
+    def _solve(self):
+        g = self.cfg
+        # reverse post-order of reachable blocks
+        order = []
+        seen = set()
+        st = [(0, iter(g.succ[0]))]
+        seen.add(0)
+        while st:
+            x, it = st[-1]
+            adv = False
+            for y in it:
+                if y not in seen and y != g.EXIT:
+                    seen.add(y)
+                    st.append((y, iter(g.succ[y])))
+                    adv = True
+                    break
+            if not adv:
+                order.append(x)
+                st.pop()
+        rpo = list(reversed(order))
+        self._in = {0: frozenset()}
+        for rnd in range(12):
+            changed = False
+            for b in rpo:
+                if b == 0:
+                    continue
+                sets = []
+                for p in g.pred[b]:
+                    if p not in self._in:
+                        continue
+                    base = set(self._in[p])
+                    if self.body.blocks[p]["term"]["k"] == "switch":
+                        base |= self.switch_literals(p, b, 0)
+                    sets.append(base)
+                if not sets:
+                    continue
+                new = frozenset(join_literal_sets(sets))
+                if self._in.get(b) != new:
+                    self._in[b] = new
+                    changed = True
+            if not changed:
+                break
 
 
 def join_literal_sets(sets):
